@@ -453,6 +453,25 @@ func TestC06Container(t *testing.T) {
 		}
 		canon := cfg.String()
 		labels := append(configLabels(cfg), "defects="+strings.Join(classes, "+"))
+		// now and then the caller's context is cancelled from inside Build - by a singleton's constructor
+		// once it has done its work: whatever Build makes of a cancellation at that point (the
+		// statement does not say), it is one verdict for the set of registrations
+		var cancelReg *int
+		if len(classes) == 0 && rapid.IntRange(0, 3).Draw(rt, "cancelDuringBuild") == 0 {
+			var cands []int
+			for _, id := range m.Order {
+				if r := m.Regs[id]; r.Life == kit.Singleton && r.Form != kit.FormInstance && r.Kind == kit.KindMakeFunc {
+					cands = append(cands, id)
+				}
+			}
+			if len(cands) > 0 {
+				id := rapid.SampledFrom(cands).Draw(rt, "cancelReg")
+				cancelReg = &id
+				cfg.BuildMode = 1
+				canon += fmt.Sprintf(" [the constructor of r%d cancels the context of BuildWithContext]", id)
+				labels = append(labels, "build-cancelled-by-a-constructor")
+			}
+		}
 		col.Case(nt, canon, fmt.Sprintf("%s planted=%v dropped=%v", canon, planted, dropped), labels...)
 		var refVerdict, refGraph, refOrder string
 		for pi := 0; pi < M; pi++ {
@@ -461,7 +480,7 @@ func TestC06Container(t *testing.T) {
 				order = groupPreservingPerm(rt, cfg)
 			}
 			for bi := 0; bi < N; bi++ {
-				x, err := startRun(kit.CloneConfig(cfg), order)
+				x, err := startRunWith(kit.CloneConfig(cfg), order, func(w *kit.World) { w.CancelBuildReg = cancelReg })
 				if err != nil {
 					rt.Fatal(err)
 				}
@@ -484,7 +503,7 @@ func TestC06Container(t *testing.T) {
 					if len(classes) == 1 && verdict != classes[0] {
 						f = fail("C06", "verdict-model", classes[0]+"->"+verdict, "model says the only defect is %q but Build returned %s (%v)", classes[0], verdict, firstLine(x.Build.Err))
 					}
-					if len(classes) == 0 && verdict != kit.VOK {
+					if len(classes) == 0 && verdict != kit.VOK && cancelReg == nil {
 						f = fail("C06", "verdict-model", "ok->"+verdict, "model says buildable but Build returned %v", firstLine(x.Build.Err))
 					}
 				} else if f == nil && verdict != refVerdict {
